@@ -18,7 +18,7 @@ BOUND_MS = 6000
 def cmd(r, k, dur):
     body = "sleep %s" % dur
     if str(dur).startswith("noint"):          # a child that ignores SIGINT: ends only by SIGKILL after the interpreter's 2 s grace
-        body = "sh -c \"trap '' INT; while :; do :; done\""       # (no grandchild: one that kept the output pipe open would delay the return, which is outside the statement)
+        body = "sh -c \"trap '' INT; n=0; while [ \\$n -lt 25000000 ]; do n=\\$((n+1)); done\""       # (no grandchild: one that kept the output pipe open would delay the return, which is outside the statement)
     if str(dur).startswith("survive"):        # a child that ignores SIGINT and ends BY ITSELF with status 0 shortly after the Cancel: the command completes;
         # it is the command's last statement, so nothing of this command is left to be interrupted - the NEXT command must not start, the task must report an error
         return 'echo "start.%d.%d $(date +%%s%%N)" >> "$TRACE"; sh -c "trap \'\' INT; sleep 0.7"' % (r, k)
